@@ -673,6 +673,10 @@ namespace Pistache::Http::Experimental
 
     void Connection::handleError(const char* error)
     {
+        // The connection goes back to the pool: whatever the parser holds of the
+        // response that failed must not be seen by the next response read on it
+        parser.reset();
+
         if (requestEntry)
         {
             if (requestEntry->timer)
